@@ -1,7 +1,9 @@
 package main
 
 import (
+	"bytes"
 	"fmt"
+	"os"
 
 	"github.com/openacid/low/bitword"
 )
@@ -53,6 +55,14 @@ func init() {
 	Exec["bitword.FirstDiff/large"] = Exec["bitword.FirstDiff"]
 	Exec["bitword.FromStr/large"] = Exec["bitword.FromStr"]
 	Exec["bitword.ToStr/large"] = Exec["bitword.ToStr"]
+	// widened ops (Spec/BitwordSpecWiden.v)
+	Exec["bitword.FromStr/cmp"] = func(a []V) string {
+		w := c08bw(a)
+		return Int(bytes.Compare(w.FromStr(a[1].Str()), w.FromStr(a[2].Str())))
+	}
+	Exec["bitword.Get/any"] = Exec["bitword.Get"]
+	Exec["bitword.FirstDiff/any"] = Exec["bitword.FirstDiff"]
+	Exec["bitword.ToStr/any"] = Exec["bitword.ToStr"]
 	Register("C08", genC08)
 }
 
@@ -415,6 +425,8 @@ func genC08(g *Gen) {
 	}
 
 	c08Large(g, get, fromStr, toStr, firstDiff)
+	c08Lists(g)
+	c08Wide(g)
 }
 
 // c08Large: inputs whose byte / bit / word offsets cross 2^8 and 2^16 (narrowing conversions of
@@ -598,4 +610,140 @@ func c08Large(g *Gen, get func(int, []byte, int, string), fromStr func(int, []by
 		g.Stat("large-tostr")
 		g.Do("bitword.ToStr/large", L(Int(8), Bytes(randWords(8, 65536+g.R.Range(1, 5)))), "large/to/n8/64k")
 	}
+}
+
+// c08Lists: FromStrs / ToStrs on ALL lists of length <= 3 over four elements (equal neighbours,
+// empty elements, order); c08Wide: the widened ops.
+func c08Lists(g *Gen) {
+	for _, n := range c08Widths {
+		m := 8 / n
+		mx := byte(1<<uint(n) - 1)
+		strs := []string{Bytes(nil), Bytes([]byte{'a'}), Bytes([]byte{0xff}), Bytes([]byte{'a', 0x80})}
+		part := []byte{1}
+		if m > 1 {
+			part = make([]byte, m+1) // one byte and a partial one
+			part[0], part[m] = mx, 1
+		}
+		wls := []string{Bytes(nil), Bytes([]byte{1}), Bytes([]byte{mx}), Bytes(part)}
+		var rec func(pre []int, depth int)
+		rec = func(pre []int, depth int) {
+			ss := make([]string, len(pre))
+			ws := make([]string, len(pre))
+			dup := false
+			for i, k := range pre {
+				ss[i], ws[i] = strs[k], wls[k]
+				if i > 0 && pre[i-1] == k {
+					dup = true
+				}
+			}
+			key := ""
+			if len(pre) > 0 {
+				key = fmt.Sprintf("strs/n%d/cnt%d/dup%v", n, len(pre), dup)
+			}
+			g.Stat("exh-strs")
+			g.Do("bitword.FromStrs", L(Int(n), L(ss...)), key)
+			g.Do("bitword.ToStrs", L(Int(n), L(ws...)), key)
+			if depth == 3 {
+				return
+			}
+			for k := 0; k < 4; k++ {
+				rec(append(append([]int{}, pre...), k), depth+1)
+			}
+		}
+		rec(nil, 0)
+	}
+	g.Exhaust = append(g.Exhaust, "FromStrs / ToStrs: all lists of length 0..3 over four strings / four word lists (empty, one word, all-ones, partial last byte) x 4 widths")
+}
+
+func c08Wide(g *Gen) {
+	// FromStr keeps the order: all pairs of strings of length <= 2 over the 7-byte alphabet
+	// (thorough; quick: length <= 1 plus a sample) and random pairs sharing a prefix
+	cmp := func(n int, a, b []byte, bucket string) {
+		g.Stat(bucket)
+		key := ""
+		if len(a) > 0 && len(b) > 0 {
+			c := bytes.Compare(a, b)
+			rel := "eq"
+			if len(a) < len(b) {
+				rel = "shorter"
+			} else if len(a) > len(b) {
+				rel = "longer"
+			}
+			key = fmt.Sprintf("cmp/n%d/%d/%s/high%v%v", n, c, rel, c08HasHigh(a), c08HasHigh(b))
+		}
+		g.Do("bitword.FromStr/cmp", L(Int(n), Bytes(a), Bytes(b)), key)
+	}
+	strs1 := c08AllStrings(c08Alpha, 1)
+	strs2 := c08AllStrings(c08Alpha, 2)
+	for _, n := range c08Widths {
+		for _, a := range strs1 {
+			for _, b := range strs1 {
+				cmp(n, a, b, "exh-cmp")
+			}
+		}
+		k := 0
+		for _, a := range strs2 {
+			for _, b := range strs2 {
+				k++
+				if g.Thorough || k%8 == 0 {
+					cmp(n, a, b, "exh-cmp2")
+				}
+			}
+		}
+	}
+	g.Exhaust = append(g.Exhaust, "FromStr/cmp: all pairs of strings of length 0..1 over the 7-byte alphabet x 4 widths")
+	for q := 0; q < g.N(600, 15000); q++ {
+		n := c08Widths[g.R.Intn(4)]
+		al := alphabets[g.R.Intn(len(alphabets))]
+		pre := g.R.Bytes(g.R.Range(0, 10), al)
+		a := append(append([]byte{}, pre...), g.R.Bytes(g.R.Range(0, 4), al)...)
+		b := append(append([]byte{}, pre...), g.R.Bytes(g.R.Range(0, 4), al)...)
+		if g.R.Intn(4) == 0 && len(a) > 0 { // one flipped bit
+			b = append([]byte{}, a...)
+			p := g.R.Intn(len(b) * 8)
+			b[p/8] ^= 0x80 >> uint(p%8)
+		}
+		cmp(n, a, b, "rand-cmp")
+	}
+
+	if os.Getenv("VERIF_C08_WIDE") != "1" {
+		return
+	}
+	// ---- outside the domain of the C08 statement (only on request)
+	for _, n := range c08Widths {
+		m := 8 / n
+		for _, s := range c08AllStrings([]byte{0x00, 0xa5, 0xff}, 2) {
+			words := len(s) * m
+			for i := -m - 2; i <= words+m+1; i++ {
+				g.Stat("wide-get")
+				g.Do("bitword.Get/any", L(Int(n), Bytes(s), Int(i)), fmt.Sprintf("wide/get/n%d/neg%v/in%v", n, i < 0, i >= 0 && i < words))
+			}
+			for _, t := range c08AllStrings([]byte{0x00, 0xa5}, 1) {
+				for from := -3; from <= words+1; from++ {
+					for end := -3; end <= words+2; end++ {
+						g.Stat("wide-firstdiff")
+						g.Do("bitword.FirstDiff/any", L(Int(n), Bytes(s), Bytes(t), Int(from), Int(end)),
+							fmt.Sprintf("wide/fd/n%d/fromneg%v/end%d", n, from < 0, c08sgn(end+1)))
+					}
+				}
+			}
+		}
+	}
+	for q := 0; q < g.N(1500, 20000); q++ {
+		n := c08Widths[g.R.Intn(4)]
+		m := 8 / n
+		ws := g.R.Bytes(g.R.Range(0, 3*m+1), alphabets[g.R.Intn(len(alphabets))])
+		g.Stat("wide-tostr")
+		g.Do("bitword.ToStr/any", L(Int(n), Bytes(ws)), fmt.Sprintf("wide/to/n%d/partial%d", n, len(ws)%m))
+	}
+}
+
+func c08sgn(x int) int {
+	switch {
+	case x < 0:
+		return -1
+	case x > 0:
+		return 1
+	}
+	return 0
 }
